@@ -90,6 +90,17 @@ def path_setter_rules(facts, rep, w, D, rule):
         rep.ob(rule, b.id, "%s builds no error of its own" % name, not own, "" if not own else
                "%s refuses some calls itself (%s): a value the backend could store is not settable through the path type"
                % (name, ", ".join(sorted({str(v) for v, _ in own}))), own[0][1] if own else b.span)
+    # ... and answer Ok only when the backend did: whether a time stamp can be set is the backend's answer (NotSupported where it
+    # cannot), so no success return of a setter bypasses the backend call ("the entry already carries that value" included) —
+    # the setter rows of the path layer's Table P
+    from ..report import Report as _Rp
+    scr = _Rp("p")
+    pr.table_p(scr, "P")
+    for o in scr.obligations:
+        d = o["key"].split("|")[2]
+        if d.split(":")[0] in FIELD_OF:
+            n += 1
+            rep.ob(rule, o["fn"], d, o["ok"], o["detail"], o["loc"])
     return n
 
 
@@ -217,6 +228,36 @@ def run(facts, rep, tier, ctx):
             rep.ob("R19.4d", b_.id, "provided %s only answers NotSupported" % b_.name, okd_, "" if okd_ else
                    "the trait default of %s builds %s / calls %s: a backend without time stamps reports success (or another error) "
                    "although nothing can be stored" % (b_.name, sorted(kinds_), calls_[:3]), b_.span)
+    # R19.4w who may re-time through an adapter: the only calls of a time setter inside the overlay / altroot are those of the
+    # adapter's own setter of the same name (pure forwarding).  A setter called from a content operation ("a copy is as old as its
+    # original", carried out on every append) replaces a time stamp the caller has set and metadata has reported
+    from ..inter import Inter as _In
+    from ..pathrules import sname as _sn
+    in_ = _In(facts)
+    for w4 in (ws, World(facts, True)):
+        if not w4.present():
+            continue
+        k4 = 0
+        for ty4 in (w4.overlay, w4.altroot):
+            for b4 in facts.bodies:
+                if b4.kind == "Closure" or not b4.impl or b4.impl["self_ty"] != ty4:
+                    continue
+                for cb4 in in_.code_bodies(b4):
+                    for s4 in in_.sites(cb4):
+                        n4 = _sn(s4.path)
+                        if n4 in FIELD_OF and ((s4.self_ty or "").endswith("VfsPath") or (s4.trait or "").endswith("FileSystem")):
+                            ok4 = b4.name == n4 and bool(b4.impl.get("trait"))
+                            if not b4.impl.get("trait") and b4.vis != "pub":
+                                # a private helper is judged as the operations that call it: forwarding shared by the three setters
+                                callers4 = [c4 for c4 in facts.bodies if c4.kind != "Closure" and c4.impl and c4.impl["self_ty"] == ty4 and
+                                            c4.id != b4.id and any((in_.local_callee(x4) is not None and in_.local_callee(x4).id == b4.id)
+                                                                   for y4 in in_.code_bodies(c4) for x4 in in_.sites(y4))]
+                                ok4 = bool(callers4) and all(c4.name in FIELD_OF and c4.impl.get("trait") for c4 in callers4)
+                            k4 += 1
+                            rep.ob(("A/" if w4.asyncw else "") + "R19.4w", b4.id, "%s called only from the adapter's own %s" % (n4, n4), ok4,
+                                   "" if ok4 else "%s re-times an entry with %s: a time stamp that was set and reported is replaced by an "
+                                   "operation that is not a setter" % (b4.name, n4), s4.line)
+        rep.floor("setter call sites inside the adapters (%s)" % w4.tag, k4, 6)
     # R19.5 appending keeps the entry (and with it its creation time) until the writer publishes: append_file neither
     # rewrites the stored entry nor goes through create_file
     from . import c01 as _c01
